@@ -59,8 +59,13 @@ def mergeCore (self other : Mol) (nrexcl : Option Int) (offset roff coff : Int) 
                                 nodes := newNodes.foldl (fun ns p => upsert ns p.1 p.2) self.nodes }
     let m2 : Mol := { m1 with inters := m1.inters ++ ri }
     let m3 : Mol := re.foldl (fun m e => m.addEdge e.1 e.2) m2
+    -- (C12 extension round: bond attribute table and log entries ride along; a log entry of the
+    -- newcomer that mentions an atom it does not have makes the outcome a KeyError)
+    let lg := mergeLogs self.logs okeys offset (flattenLogs other.logs)
     ({ m3 with cites := unionSet self.cites other.cites,
-               maxNode := some (offset + (other.nodes.length : Int)) }, .ok)
+               maxNode := some (offset + (other.nodes.length : Int)),
+               eattr := self.eattr ++ renameEAttr okeys offset other.eattr,
+               logs := lg.1 }, if lg.2 then .ok else .keyerror)
   | _, _ => (self, .keyerror)
 
 def mergeNrexcl (self other : Mol) : Option Int :=
@@ -68,7 +73,8 @@ def mergeNrexcl (self other : Mol) : Option Int :=
 
 theorem merge_eq (self other : Mol) :
     self.merge other =
-      (if mergeNrexcl self other ≠ other.nrexcl then (self, .valueerror) else
+      (if self.ff ≠ other.ff then (self, .valueerror) else
+       if mergeNrexcl self other ≠ other.nrexcl then (self, .valueerror) else
        match offsOf self with
        | none => (self, .keyerror)
        | some (offset, roff, coff) => mergeCore self other (mergeNrexcl self other) offset roff coff) := rfl
